@@ -48,3 +48,83 @@ pub fn varint_cmp(a: &[u8], b: &[u8]) -> SerializationResult<std::cmp::Ordering>
 pub const fn max_varint_len() -> usize {
     MAX_VARINT_LEN
 }
+
+// ------------------------------------------------------------------------------------------------
+// Key comparison as the B+tree performs it (`tree/cell_ops.rs`, `CellComparator`).
+
+use crate::{
+    DBConfig,
+    io::pager::{Pager, SharedPager},
+    schema::{Column, Schema},
+    storage::{
+        cell::OwnedCell,
+        tuple::{Row, Tuple, TupleBuilder},
+    },
+    tree::cell_ops::CellComparator,
+    types::{DataType, DataTypeKind, UInt64},
+};
+use std::{cmp::Ordering, io, path::Path};
+
+/// Holds the pager a `CellComparator` wants (it is only touched for overflow cells).
+pub struct KeyComparator {
+    pager: SharedPager,
+}
+
+/// What the two ways the tree calls the comparator answer for one (search key, stored cell) pair.
+pub struct KeyComparison {
+    /// `Btree::search_tuple` / `insert`: the search key is a whole tuple, compared from `Tuple::keys_offset`.
+    pub tuple_mode: io::Result<Ordering>,
+    /// `Btree::search`: the search key is the bare serialized key (only offered for a single key column).
+    pub bare_mode: Option<io::Result<Ordering>>,
+}
+
+impl KeyComparator {
+    pub fn new(db_path: impl AsRef<Path>) -> io::Result<Self> {
+        let pager: SharedPager = Pager::from_config(DBConfig::default(), db_path)?.into();
+        Ok(Self { pager })
+    }
+
+    /// Builds an index-shaped schema whose key columns have the given kinds (plus one BigUInt value column, as a
+    /// secondary index has), a stored cell holding `cell_keys`, a search tuple holding `search_keys`, and compares
+    /// them with `CellComparator::compare_cell_payload`.
+    pub fn compare(
+        &self,
+        kinds: &[DataTypeKind],
+        search_keys: &[DataType],
+        cell_keys: &[DataType],
+    ) -> io::Result<KeyComparison> {
+        let mut columns: Vec<Column> = kinds
+            .iter()
+            .enumerate()
+            .map(|(i, k)| Column::new_with_defaults(*k, &format!("k{i}")))
+            .collect();
+        columns.push(Column::new_with_defaults(DataTypeKind::BigUInt, "row_id"));
+        let schema = Schema::new_index(columns, kinds.len());
+
+        let build = |keys: &[DataType], row_id: u64| -> io::Result<Tuple> {
+            let mut vals = keys.to_vec();
+            vals.push(DataType::BigUInt(UInt64(row_id)));
+            TupleBuilder::from_schema(&schema)
+                .build(&Row::new(vals.into_boxed_slice()), 0)
+                .map_err(|e| io::Error::new(io::ErrorKind::InvalidInput, e.to_string()))
+        };
+        let search = build(search_keys, 1)?;
+        let cell = OwnedCell::from_tuple(build(cell_keys, 2)?);
+
+        let comparator = CellComparator::new(&schema, self.pager.clone());
+        let tuple_mode = comparator.compare_cell_payload(
+            search.effective_data(),
+            cell.as_cell_ref(),
+            Tuple::keys_offset(schema.num_values()),
+        );
+        let bare_mode = if kinds.len() == 1 {
+            match search_keys[0].serialize() {
+                Ok(bytes) => Some(comparator.compare_cell_payload(&bytes, cell.as_cell_ref(), 0)),
+                Err(e) => Some(Err(io::Error::new(io::ErrorKind::InvalidInput, e.to_string()))),
+            }
+        } else {
+            None
+        };
+        Ok(KeyComparison { tuple_mode, bare_mode })
+    }
+}
